@@ -49,6 +49,11 @@ CHECKS = {
          "Every model is encoded with pbutil in binary, JSON and text form, indented and compact, decoded again and compared with proto.Equal; JSON must be well-formed; a root file that only imports the encoded file is compiled by the real parser and its applications compared (locations and import list ignored). The string sweep places every sequence of <=2 (thorough 3) tokens (quotes, backslashes, '\": ', double spaces, newlines, tabs, braces...) in name parts, long names, attribute values, array elements and multi-line annotations.",
          "library-level round trip on compiler-produced models",
          "DESIGN.md §4 C09"),
+ "C17": ("exploration",
+         "bounded-exhaustive model set (corpus, generated families, return-payload sweep, complete deep statement trees) through the real relmod.Normalize, compared row-for-row (as multisets) with an independent census of the module; repeated run compared",
+         "For every model the relational schema must either be refused with an error or contain exactly the census rows: applications, mixins, endpoints, events, parameters (index, location, type, optionality), statements with their position path, types, table keys, fields (type, optionality, constraints), enums, aliases, views, annotations and tags of every element; a second run must give the same relations.",
+         "relmod's documented representation choices are part of the census (see evidence.assumptions); arr.ai has a single empty value, so an empty string and an empty array are one value",
+         "DESIGN.md §4 C17"),
  "C18": ("model_checking",
          "explicit-state product of a reference path automaton with the real ChrootFs over all path strings up to the segment bound; loader runs on a recording filesystem",
          "Every path string over a 6-segment alphabet up to 5 (thorough 7) segments x absolute/relative x trailing slash x 7 root spellings x every wrapper operation (rename arguments independently) is pushed through the real syslutil.ChrootFs onto a recording filesystem; safety (nothing outside the root reaches the filesystem) and liveness (never-leaving spellings are served at root+canonical path) are checked on every transition. The real loader is also run on every (module spelling, import spelling) pair.",
